@@ -39,6 +39,23 @@ Definition ops : list op := [
                              vres view (let? pay := Pes.pkt_payload p' in Pes.new_pes_header pay)])
               (Pes.with_pes p (zN v)) else vbad
      | _ => vbad end);
+  (* spec.pes <logical> -> the getters required by Spec/PesSpec.v for that record (oracle side; theorem C11_decode_ser_optional) *)
+  ("spec.pes", fun a => match a with
+     | [VI id; VI pl; VI f6; VI f7; VI mode; VI p; VI d; VB ex; VB dat] =>
+         let r := PesSpec.mk_pes (zN id) (zN pl) (zN f6) (zN f7) (stamps_of mode p d) ex dat in
+         VL [VI 1%Z; vn (PesSpec.stream_id r); vbool (PesSpec.aligned r); vbool (PesSpec.has_pts r); vn (PesSpec.pts_of r);
+             vbool (PesSpec.has_dts r); vn (PesSpec.dts_of r); VB (PesSpec.data r); VI 0%Z; VI 1%Z]
+     | _ => vbad end);
+  (* spec.pkt p -> what Spec/PesSpec.v requires of packet.PESHeader on this packet: [0 payload] or [1]
+     (PUSI, a payload of at least four bytes, starting 00 00 01; theorem C11_pkt_pes_header_iff) *)
+  ("spec.pkt", fun a => match a with
+     | [VB p] => if N.eqb (len p) 188 then
+         match PesSpec.ts_payload p with
+         | Some pay => if PesSpec.pusi p && N.leb 4 (len pay) &&
+                          match pay with 0%N :: 0%N :: 1%N :: _ => true | _ => false end
+                       then VL [VI 0%Z; VB pay] else VL [VI 1%Z]
+         | None => VL [VI 1%Z] end else vbad
+     | _ => vbad end);
   (* ser.pes id plen flags6 flags7 mode pts dts extra data -> Spec serialiser (modelexec only; used by the generator) *)
   ("ser.pes", fun a => match a with
      | [VI id; VI pl; VI f6; VI f7; VI mode; VI p; VI d; VB ex; VB dat] =>
